@@ -6,7 +6,7 @@ import collections.abc
 from bisect import bisect_left, bisect_right
 from pathlib import Path
 from numbers import Number
-from operator import truediv, sub, mul, itemgetter, methodcaller
+from operator import truediv, sub, mul, is_, itemgetter, methodcaller
 from abc import abstractmethod
 from collections import defaultdict
 from dataclasses import dataclass, astuple, field, replace
@@ -274,7 +274,7 @@ class Table:
         if self._indexes:
             #an indexed table promises rows in index order. Rows inserted in order (e.g., by
             #TransactionResult) only cost a look at the new rows, anything else is sorted again.
-            in_order = self._in_index_order(max(n_old-1,0))
+            in_order = self._in_index_order(n_old)
             indexes,self._indexes = self._indexes,()
             if in_order: self._indexes = indexes
             elif in_order is False:
@@ -287,17 +287,27 @@ class Table:
 
         return self
 
-    def _in_index_order(self, start:int) -> Optional[bool]:
-        #are rows start,start+1,... in lexicographic order of the index columns (None if they can't be compared)
+    def _in_index_order(self, n_old:int) -> Optional[bool]:
+        #do the rows after the first n_old keep the lexicographic (<) order of the index columns (None if they can't be compared)
         cols = [self._data[c] for c in self._indexes]
+
+        def in_order(i,j):
+            for col in cols:
+                if col[i] < col[j]: return True
+                if col[j] < col[i]: return False
+            return True
+
         try:
-            for i in range(start+1,len(self)):
-                for col in cols:
-                    if col[i-1] < col[i]: break
-                    if col[i] < col[i-1]: return False
+            if 0 < n_old < len(self) and not in_order(n_old-1,n_old): return False
+
+            #the common case costs no loop in python: new rows that agree on all but the last index column
+            *firsts,last = [col[n_old:] for col in cols]
+            if all(c and c[0] is not None and c[0] is not Missing and c.count(c[0]) == len(c) for c in firsts):
+                return all(map(is_,last,sorted(last)))
+
+            return all(in_order(i-1,i) for i in range(n_old+1,len(self)))
         except TypeError:
             return None
-        return True
 
     def index(self, *indx) -> 'Table':
         if not indx: return self
